@@ -109,6 +109,15 @@ impl Gate {
         }))
     }
 
+    /// Gives up schedule control: every parked process continues, later points return at once.
+    pub fn set_free(&self) {
+        let mut st = self.state.lock().unwrap_or_else(|e| e.into_inner());
+        st.control = false;
+        for (_, (_, tx)) in st.parked.drain() {
+            let _ = tx.send(());
+        }
+    }
+
     pub fn register(&self, id: tokio::task::Id, proc: &'static str) {
         let mut st = self.state.lock().unwrap_or_else(|e| e.into_inner());
         st.procs.insert(id, proc);
